@@ -465,3 +465,25 @@ Definition all_ok (excl : bool) (factor : nat) (stop : bool) (p : table * list (
          forallb (fun src => forallb (fun dst => nav_ok excl factor stop t order cls stuck (fst pw) (snd pw) src dst) lv) lv)
          pw_variants)
        ([] :: map (fun e => [e]) es ++ pairs_of es).
+
+(* ------------------------------------------------------------------------------------------ *)
+(* a stale memory: the driver remembers [bel] (any level, or DUMMY) while the device sits in [src]
+   (the user's own lines moved it).  From every level whose prompt is matched by that level only,
+   acquire_priv must do exactly what it does when it remembers the right level *)
+Definition res_eqb (a b : outcome * option nat * sim * list line) : bool :=
+  let '(o1, b1, s1, t1) := a in
+  let '(o2, b2, s2, t2) := b in
+  outcome_eqb o1 o2 && oeqb b1 b2 && (s_mode s1 =? s_mode s2) && log_eqb (s_log s1) (s_log s2)
+  && lbeq (s_hidden s1) (s_hidden s2) && lines_eqb t1 t2.
+
+Definition stale_ok (factor : nat) (stop : bool) (p : table * list (list nat) * list (list nat) * nat) : bool :=
+  let '(t, cls, order, root) := p in
+  let lv := seq 0 (length t) in
+  forallb (fun pw =>
+    forallb (fun src =>
+      negb (nat_list_eqb (nth src cls []) [src])
+      || forallb (fun dst =>
+           forallb (fun bel =>
+             res_eqb (run_acquire factor stop (mkC t [] [] (fst pw) (snd pw)) order cls bel src dst)
+                     (run_acquire factor stop (mkC t [] [] (fst pw) (snd pw)) order cls (Some src) src dst))
+             (None :: map Some lv)) lv) lv) pw_variants.
